@@ -1,7 +1,10 @@
 //! ivh — verification harness for theangryangel/insim.rs (runtime monitoring family).
 #![allow(clippy::type_complexity)]
 
+pub mod bind;
 pub mod checks;
+pub mod corpus;
+pub mod refspec;
 pub mod ctx;
 pub mod hang;
 pub mod rng;
